@@ -126,12 +126,93 @@ let suite_crcmask (line : string) : string =
         (int_of_n (crc32c d))
   | _ -> failwith "bad crcmask case"
 
+
+(* ---------- suite: bloom ---------- *)
+(* case: <id> <bpk> <probe> <k1,k2,...> *)
+let show_match = function
+  | MOk true -> '1'
+  | MOk false -> '0'
+  | MErr -> 'E'
+  | MPanic -> 'P'
+
+let suite_bloom (line : string) : string =
+  let toks = String.split_on_char ' ' line in
+  match toks with
+  | id :: bpk :: probe :: rest ->
+      let bpk = n_of_int (int_of_string bpk) in
+      let probe = parse_bytes probe in
+      let keys = match rest with [] -> [] | k :: _ -> List.map parse_bytes (split_nonempty ',' k) in
+      (match bloom_create bpk keys with
+       | None -> Printf.sprintf "%s panic - - | none" id
+       | Some filter ->
+           let res = String.of_seq (List.to_seq (List.map (fun k -> show_match (bloom_match k filter)) keys)) in
+           let p = show_match (bloom_match probe filter) in
+           let short = show_match (bloom_match probe [List.hd filter]) in
+           Printf.sprintf "%s x%s %s %c%c | %s" id (hex_of_bytes filter)
+             (if res = "" then "-" else res) p short
+             (if res = "" then "-" else String.make (String.length res) '1'))
+  | _ -> failwith "bad bloom case"
+
+(* ---------- suite: fblock ---------- *)
+let rec take k l = if k = 0 then [] else match l with [] -> [] | x :: r -> x :: take (k - 1) r
+
+let suite_fblock (line : string) : string =
+  match split_nonempty ' ' line with
+  | id :: bpk :: evs ->
+      let bpk = n_of_int (int_of_string bpk) in
+      let start = ref 0 in
+      let queries = ref [] and offs = ref [ 0 ] in
+      let events =
+        List.map
+          (fun ev ->
+            let body = String.sub ev 1 (String.length ev - 1) in
+            match ev.[0] with
+            | 'K' ->
+                let k = parse_bytes body in
+                queries := (!start, k) :: !queries;
+                EvKey k
+            | 'N' ->
+                let o = int_of_string body in
+                start := o;
+                offs := o :: !offs;
+                EvNotify (n_of_int o)
+            | _ -> failwith "bad event")
+          evs
+      in
+      let queries = List.rev !queries and offs = List.rev !offs in
+      (match fb_build bpk events with
+       | None -> Printf.sprintf "%s panic - - | none" id
+       | Some block -> (
+           match fb_parse block with
+           | FErr -> Printf.sprintf "%s x%s parse-error - | none" id (hex_of_bytes block)
+           | FPanic -> Printf.sprintf "%s x%s parse-panic - | none" id (hex_of_bytes block)
+           | FOk r ->
+               let q o k =
+                 match fb_match r (n_of_int o) k with
+                 | Some true -> '1'
+                 | Some false -> '0'
+                 | None -> 'P'
+               in
+               let own = String.of_seq (List.to_seq (List.map (fun (o, k) -> q o k) queries)) in
+               let cross = Buffer.create 16 in
+               List.iter
+                 (fun (_, k) -> List.iter (fun o -> Buffer.add_char cross (q o k)) (take 6 offs))
+                 (take 6 queries);
+               let cross = Buffer.contents cross in
+               Printf.sprintf "%s x%s %s %s | %s" id (hex_of_bytes block)
+                 (if own = "" then "-" else own)
+                 (if cross = "" then "-" else cross)
+                 (if own = "" then "-" else String.make (String.length own) '1')))
+  | _ -> failwith "bad fblock case"
+
 let () =
   let suite = Sys.argv.(1) in
   let f =
     match suite with
     | "log" -> suite_log
     | "crcmask" -> suite_crcmask
+    | "bloom" -> suite_bloom
+    | "fblock" -> suite_fblock
     | _ -> failwith ("unknown suite " ^ suite)
   in
   try
